@@ -24,14 +24,14 @@ META = {
     "engine": "vlib",
     "technique": "exhaustive enumeration of all digraphs on <= 4 nodes x all query orders through the real "
                  "DependencyTree.transitive_merge (BFS closure oracle), Hypothesis graphs up to 12 nodes; file-level "
-                 "edit/touch histories on real temp trees with fresh cythonize subprocesses and an audit-hook record of "
-                 "the files the compiler opens",
+                 "edit/touch histories on real temp trees, each cythonize step in a fresh process state, and an audit-hook "
+                 "record of the files the compiler opens",
     "level_text": "Exploration with an exhaustively enumerated core: for every directed graph on <= 4 nodes (cycles and "
                   "self-loops included) and every order of querying all nodes on one shared DependencyTree (so cached "
                   "partial closures carry over), all_dependencies equals the BFS closure (exhaustive: true for that "
                   "space); larger graphs, per-node successor orders and repeated queries are sampled. File-level "
-                  "histories (touch/edit/add-remove cimport or include/delete C file/run cythonize in a fresh "
-                  "subprocess, logical clock via os.utime) compare the rebuilt set with the set predicted from the "
+                  "histories (touch/edit/add-remove cimport or include/delete C file/run cythonize in a forked, "
+                  "cache-cleared child - every 16th history in a new interpreter -, logical clock via os.utime) compare the rebuilt set with the set predicted from the "
                   "generated dependency closure, and all_dependencies with the files a real compile opens. Sampling "
                   "beyond the enumerated graph space; no proof.",
     "level_note": "Graph part replaces only immediate_dependencies/cimported_files of DependencyTree by a table. File part "
